@@ -240,8 +240,8 @@ pub fn run(tier: Tier, seed: u64) -> i32 {
         let is_zero = tt.is_zero();
         match r {
             Ok(bpub) => {
-                if used != 32 {
-                    mc::util::machinery_error(&format!("C04: into_proof consumed {used} scripted bytes, expected 32"));
+                if used < 32 {
+                    mc::util::machinery_error(&format!("C04: into_proof consumed {used} scripted bytes, expected at least 32"));
                 }
                 if is_zero {
                     report.violation(Violation {
